@@ -8,6 +8,8 @@ import (
 	_ "verif/harness/c05"
 	_ "verif/harness/c06"
 	_ "verif/harness/c07"
+	_ "verif/harness/c08"
+	_ "verif/harness/c09"
 	_ "verif/harness/c11"
 	_ "verif/harness/c12"
 	_ "verif/harness/c13"
